@@ -182,6 +182,63 @@ PROPS["C11"] = {
     ],
 }
 
+def _c16_pre(tier):
+    import subprocess, sys
+    rc = subprocess.call([sys.executable, os.path.join(os.path.dirname(os.path.abspath(__file__)), "..", "tools", "gen_c16_views.py")])
+    if rc != 0:
+        raise SystemExit(3)
+
+
+PROPS["C16"] = {
+    "crate": "rt",
+    "pre": _c16_pre,
+    "groups": [
+        {"id": "views",
+         "quick": ["c16::c16_cbox_view", "c16::c16_carc_view", "c16::c16_slices_u8", "c16::c16_slices_u64", "c16::c16_slices_t3",
+                   "c16::c16_cvec_u8_exact", "c16::c16_cvec_u64_exact", "c16::c16_cvec_u64_spare", "c16::c16_cvec_t3_empty",
+                   "c16::c16_callback_view", "c16::c16_citerator_view", "c16::c16_tags", "c16::c16_negative_twin"],
+         "cbmc_args": LEAK, "timeout": 1200},
+    ],
+    "negative": ["c16::c16_negative_twin"],
+    "bounds": "each runtime wrapper reinterpreted as its C view (views for CBox, CArc, CSliceRef, Callback, CIterator generated from "
+              "examples/pregen-headers/bindings.h on every run; CSliceMut, CVec, COption, CResult written from the statement) with "
+              "symbolic contents; element types {u8, u64, 3-byte struct}; operations a C caller performs: release, clone, read, "
+              "write, grow (reserve_fn with symbolic amount <= 3), append, invoke, advance; tags read as C int at offset 0, payload "
+              "at the C offset",
+    "outside": "release-profile layout (Kani models the dev profile; repr(C) does not depend on the profile - assumption); the C++ "
+               "header; the C-side drop/clone snippets emitted by cglue-bindgen are decided with C17's machinery",
+    "assumptions": KANI_ASSUME + [
+        "function-pointer words of a view are transmuted at the call site to the ABI-identical Rust spelling of the published C "
+        "signature (CBMC resolves indirect calls by signature)",
+        "repr(C) layout is independent of the optimisation profile",
+    ],
+}
+
+PROPS["C05"] = {
+    "crate": "rt",
+    "groups": [
+        {"id": "foreign",
+         "quick": ["c05::c05_foreign_cbox", "c05::c05_foreign_cvec_i0", "c05::c05_foreign_cvec_i1", "c05::c05_foreign_cvec_i2",
+                   "c05::c05_foreign_cslicebox", "c05::c05_foreign_callback", "c05::c05_foreign_iterator",
+                   "c10::c10_foreign_functions_used", "c05::c05_negative_twin"],
+         "timeout": 1200},
+    ],
+    "negative": ["c05::c05_negative_twin"],
+    "bounds": "two-role model inside one build: values fabricated through their C view by a plugin role with its own function "
+              "pointers over NON-HEAP memory (CBox, CArc, CVec over an 8-slot arena, CSliceBox, callback, iterator), then used only "
+              "through cglue's public API by the host role; symbolic payloads, operation choice, stop position, item count <= 4; "
+              "insertion index enumerated {0,1,2}",
+    "outside": "the property's real quantifier - pairs of builds by different compiler versions, optimisation levels, repr(Rust) "
+               "layout seeds and global allocators, and real dynamic loading - cannot be encoded (Kani verifies one crate graph "
+               "compiled once); only the clause 'memory owned by such a value is always released by the module that allocated it' "
+               "and 'all cross-module calls go through the captured function pointers' is claimed",
+    "assumptions": KANI_ASSUME + [
+        "a host-allocator free/realloc of plugin memory would be flagged by CBMC because that memory is a stack object",
+        "CBMC 6.11 mis-models memmove with symbolic offset/length on a stack array of u64 (spurious, non-replaying "
+        "counterexample): the foreign-CVec insertion index is therefore enumerated",
+    ],
+}
+
 # <<SPECS-END>>
 
 from props_text import MANIFEST_TEXT, NOT_YET  # noqa: E402
